@@ -94,11 +94,11 @@ PROPS = {
         "assumptions": ASSUME_COMMON + ["/verif/refdata/svg_colors.txt is a faithful copy of the W3C SVG colour keyword table", "the strict grammar is: optional '#', then exactly n ASCII hex digits, n in the set the target type documents"],
     },
     "C13": {
-        "runs": [{"mode": "native-dev", "bin": "c13"}]
+        "runs": [{"mode": "native-dev", "bin": "c13"}, {"mode": "native-dev", "bin": "c13b"}, {"mode": "miri", "bin": "c13b"}]
         + shards("miri", "c13", 16)
         + [dict(r, tiers=["thorough"]) for r in shards("miri-tb", "c13", 16)]
         + [{"mode": "asan-dev", "bin": "c13", "leaks": False}],
-        "expect_monitors": ["inplace_programs", "map_in_place_drops"],
+        "expect_monitors": ["inplace_programs", "map_in_place_drops", "guard_chains_inferred_types"],
         "assumptions": ASSUME_COMMON + ["the ordinary out-of-place conversions are the reference (shadow buffer)", "Miri runs with -Zmiri-deterministic-floats so that in-place and out-of-place results are comparable bit for bit", "leak detection is off for this driver: mem::forget of a guard and the panic path of map_*_in_place leak by documented design"],
     },
     "C18": {
